@@ -56,10 +56,23 @@ impl LspProject {
                     .collect());
             }
 
+            // The LSP encodes each token position relative to the previous token.
+            let mut prev_line = 0;
+            let mut prev_start = 0;
             return Ok(result
                 .0
                 .into_iter()
                 .filter_map(|tok| LspTokenType(tok).into())
+                .map(|mut tok: SemanticToken| {
+                    let (line, start) = (tok.delta_line, tok.delta_start);
+                    tok.delta_line = line - prev_line;
+                    if line == prev_line {
+                        tok.delta_start = start - prev_start;
+                    }
+                    prev_line = line;
+                    prev_start = start;
+                    tok
+                })
                 .collect());
         } else {
             error!("URL must be convertible to a file path {}", url);
